@@ -41,21 +41,22 @@ type snap struct {
 }
 
 type kase struct {
-	budget   int32
-	uid      bool
-	park     []string
-	plan     []byte
-	pdef     byte
-	cmds     []cmd
-	snaps    []snap
-	rounds   []roundRec
-	mod      string // what the PostDial plugins do to the socket (see world.mod)
-	modFirst bool
-	class    string
-	cutShort bool // the case was cut short at a leftover-reader moment: no probe phase to judge
-	accepts  string
-	badFlag  bool
-	noReader bool
+	budget    int32
+	uid       bool
+	park      []string
+	plan      []byte
+	pdef      byte
+	cmds      []cmd
+	snaps     []snap
+	rounds    []roundRec
+	mod       string // what the PostDial plugins do to the socket (see world.mod)
+	modFirst  bool
+	class     string
+	addrReuse bool // see world.snapshot
+	cutShort  bool // the case was cut short at a leftover-reader moment: no probe phase to judge
+	accepts   string
+	badFlag   bool
+	noReader  bool
 }
 
 func (w *world) snapshot(pos map[string]string) snap {
@@ -75,6 +76,13 @@ func (w *world) snapshot(pos map[string]string) snap {
 	}
 	got, ok := w.cli.GetSession(id)
 	gotU, okU := w.cli.GetSession("me")
+	// Behind a conn that renames its addresses the session's own LocalAddr() never prints the raw
+	// address the first dial made the id of - unless the socket holds a LATER raw connection
+	// (a rejected attempt's) to which the kernel gave the local port of the first one again.
+	// The closure's test oldIP == oldID then holds by coincidence of two address strings; the
+	// model (and the property) speak of distinct connections having distinct addresses. Such a
+	// run is repeated (about 1 in 10^4 connection pairs).
+	reuse := renames(w.mod) && id == w.firstID && id == s.LocalAddr().String()
 	notified := false
 	select {
 	case <-s.CloseNotify():
@@ -83,6 +91,9 @@ func (w *world) snapshot(pos map[string]string) snap {
 	}
 	w.mu.Lock()
 	defer w.mu.Unlock()
+	if reuse {
+		w.addrReuse = true
+	}
 	out := map[string]string{}
 	for _, a := range w.actors {
 		p := pos[a.name]
@@ -375,6 +386,7 @@ func runCase(k *kase, script []cmd, rng func(int) int, steps int) {
 	hung := w.hung
 	k.badFlag = w.badFlag
 	k.noReader = w.noReader
+	k.addrReuse = w.addrReuse
 	if !accOK {
 		k.accepts = fmt.Sprintf("listener accepted %d connections, expected %d", w.accepted(), 1+w.reachable)
 	}
@@ -770,10 +782,14 @@ func main() {
 		for try := 0; ; try++ {
 			base := *k
 			runCase(k, script, rng, steps)
-			if try >= 3 || !poolArtifact(k) {
+			if try >= 3 || !(poolArtifact(k) || k.addrReuse) {
 				break
 			}
-			st.Count("rerun:server-refused-call-while-pool-saturated")
+			if k.addrReuse {
+				st.Count("rerun:local-port-of-first-connection-reused")
+			} else {
+				st.Count("rerun:server-refused-call-while-pool-saturated")
+			}
 			*k = kase{budget: base.budget, uid: base.uid, park: base.park, plan: base.plan, pdef: base.pdef, class: base.class, mod: base.mod, modFirst: base.modFirst}
 		}
 		switch {
